@@ -154,6 +154,7 @@ type Exec struct {
 	harnessPkg *ssa.Package
 	inconclusive []string
 	assertsTotal int
+	usedUF bool
 	viper map[string]IfaceV
 	pending []pendingAssert
 	known map[*Term]bool
